@@ -582,6 +582,9 @@ class HttpProxyPlugin(HttpProtocolHandlerPlugin):
     def connect_upstream(self) -> None:
         host, port = self.request.host, self.request.port
         if host and port:
+            if not 0 < port <= 65535:
+                # The resolver silently reduces larger numbers modulo 65536
+                raise HttpProtocolException('Invalid port %d' % port)
             try:
                 # Invoke plugin.resolve_dns
                 upstream_ip, source_addr = None, None
